@@ -17,17 +17,16 @@ import (
 func init() {
 	vx.Register(&vx.Scenario{Name: "mux.lateframe", Prop: "C13", Run: func(c *vx.Ctx) *vx.Report {
 		sc := &vrt.Scenario{
-			Opt:      vrt.Options{RandInt: chooseConnOpt(), Delay: true, HorizonNs: int64(600 * time.Second)},
+			Opt:      vrt.Options{RandInt: chooseConnOpt(), Delay: true, HorizonNs: int64(600 * time.Second), StepCap: 20000000},
 			Classify: deadlockIs("liveness: blocked forever"),
 			Main: func() {
 				inact := 10 * time.Second
 				r := newMuxRig(rigCfg{conns: 1, unit: 256, inactivity: inact})
 				keeper, _ := r.cli.OpenStream()
 				keeper.Write([]byte{1})
-				s, _ := r.cli.OpenStream()
-				s.Write([]byte("request"))
 				var wg sync.WaitGroup
 				served := 0
+				lateSent := false
 				wg.Add(1)
 				vrt.Go("server-app", func() {
 					defer wg.Done()
@@ -40,6 +39,11 @@ func init() {
 						if st.id == keeper.id {
 							continue // stays open
 						}
+						if lateSent && c.P("strict", "0") == "1" {
+							// C12's reading: a frame for a stream both sides have closed must not bring a stream into
+							// being (it would be counted as active although neither side has it open)
+							vrt.Fail("count-equals-open-streams", "a late frame for stream %d, which both sides closed, re-created it: the accepting side now counts %d active streams", st.id, r.srv.streamCount())
+						}
 						served++
 						wg.Add(1)
 						vrt.Go("serve", func() {
@@ -50,13 +54,57 @@ func init() {
 						})
 					}
 				})
+				// cycles: that many request/answer/close exchanges on streams of their own come first (a
+				// long-lived session; bookkeeping that is only tidied every so many closures)
+				cycles := c.PI("cycles", 0)
+				r.net.NoTap = cycles > 0
+				buf := make([]byte, 16)
+				var cycleIDs []uint32
+				for i := 0; i < cycles; i++ {
+					st, err := r.cli.OpenStream()
+					if err != nil {
+						vrt.Fail("harness", "OpenStream %d: %v", i, err)
+					}
+					cycleIDs = append(cycleIDs, st.id)
+					st.Write([]byte("request"))
+					for {
+						if _, err := st.Read(buf); err != nil {
+							break
+						}
+					}
+					st.Close()
+				}
+				r.net.NoTap = false
+				s, _ := r.cli.OpenStream()
+				s.Write([]byte("request"))
 				quiesce()
 				delays := []time.Duration{time.Second, inact - time.Second, inact + time.Second, 3 * inact}
+				if cycles > 0 {
+					delays = delays[3:] // long histories vary the stream the late frame belongs to instead
+				}
 				time.Sleep(delays[vrt.Choose(len(delays), "late-by")])
 				// the frame that was still in flight when the stream was closed (built by hand: the client's
 				// own stream object already knows about the close)
 				o, _ := MakeObfuscator(EncryptionMethodPlain, rigKey)
-				late := c11Encode(&o, s.id, 1, 0, []byte("late data"), 0)
+				// which closed stream the late frame belongs to: the last one, or (long histories) one closed
+				// around a round number of closures ago - where periodic tidying would have touched it
+				target := s.id
+				if cycles > 0 {
+					var cands []uint32
+					ks := []int{1, cycles / 2, 1023, 1024, 1025, 2047, 2048, 2049, 4094, 4095, 4096, 4097, cycles}
+					if c.P("targets", "all") == "few" {
+						ks = []int{1, 1024, 4096, cycles}
+					}
+					for _, k := range ks {
+						if k >= 1 && k <= cycles {
+							cands = append(cands, cycleIDs[k-1])
+						}
+					}
+					cands = append(cands, s.id)
+					target = cands[vrt.Choose(len(cands), "late-frame-of")]
+				}
+				late := c11Encode(&o, target, 1, 0, []byte("late data"), 0)
+				lateSent = true
 				r.ca[0].Write(late)
 				quiesce()
 				time.Sleep(time.Second)
